@@ -127,7 +127,7 @@ except (OSError, ValueError):
 _RECORD = None
 SOFT_MISSED = []
 # anchors whose fact is tied by the translator ALONE (code in main() that no correspondence run executes) stay hard
-HARD_ANCHORS = ('netmask range check (max)', 'netmask range check (min)')
+HARD_ANCHORS = ()      # every anchor is also exercised by a correspondence stage (netmask range: startup stage of checks/c18.py)
 
 
 def anchored_int(text, pattern, what, fname):
